@@ -399,3 +399,325 @@ pub fn cmd_ctor_filter(t: &mut Toks) -> String {
     };
     format!("ctor_filter r={} buf={} guard={} owned={}", r, hex(&buf[GUARD..GUARD + outlen]), guards_ok(&buf, outlen), owned)
 }
+
+// ---------------- JSON parsers / writers (C01 C02 C03 C07) ----------------
+use crate::db::fnv;
+
+fn s_resjson(r: Result<Vec<u8>, pocket_types::Error>) -> String {
+    match r {
+        Ok(v) => format!("ok {}", hex(&v)),
+        Err(e) => format!("err:{}", crate::err_class(&e)),
+    }
+}
+
+pub fn cmd_evjson(t: &mut Toks) -> String {
+    let inp = t.b();
+    let outlen = t.n() as usize;
+    let fill = t.n() as u8;
+    let mut buf = guarded(outlen, fill);
+    let r = Event::from_json(&inp, &mut buf[GUARD..GUARD + outlen]);
+    let (consumed, ev) = match r {
+        Ok((c, e)) => (c, e.as_bytes().to_vec()),
+        Err(e) => return format!("evjson r=err:{} guard={}", crate::err_class(&e), guards_ok(&buf, outlen)),
+    };
+    let e: &Event = unsafe { Event::delineate(&ev).unwrap() };
+    let acc = match std::panic::catch_unwind(std::panic::AssertUnwindSafe(|| ev_accessors(e))) {
+        Ok(s) => s,
+        Err(_) => "panic".to_string(),
+    };
+    let js = match std::panic::catch_unwind(std::panic::AssertUnwindSafe(|| e.as_json())) {
+        Ok(r) => r,
+        Err(_) => return format!("evjson r=ok consumed={} ev={} acc={} json=panic guard={}", consumed, hex(&ev), acc, guards_ok(&buf, outlen)),
+    };
+    let re = match &js {
+        Ok(j) => {
+            let mut b2 = vec![0xAAu8; ev.len()];
+            match Event::from_json(j, &mut b2) {
+                Ok((_, e2)) => format!("{}", e2.as_bytes() == &ev[..]),
+                Err(e) => format!("err:{}", crate::err_class(&e)),
+            }
+        }
+        Err(_) => "nojson".to_string(),
+    };
+    // Display, verify-free accessors, equality + hash of equal bytes
+    let owned_eq = {
+        use std::collections::hash_map::DefaultHasher;
+        use std::hash::{Hash, Hasher};
+        let o = e.to_owned();
+        let mut h1 = DefaultHasher::new();
+        let mut h2 = DefaultHasher::new();
+        (*o).hash(&mut h1);
+        e.hash(&mut h2);
+        &*o == e && h1.finish() == h2.finish()
+    };
+    format!(
+        "evjson r=ok consumed={} ev={} tail={} acc={} json={} reparse={} guard={} eqhash={}",
+        consumed,
+        hex(&ev),
+        fnv(&buf[GUARD + ev.len()..GUARD + outlen]),
+        acc,
+        s_resjson(js),
+        re,
+        guards_ok(&buf, outlen),
+        owned_eq
+    )
+}
+
+pub fn cmd_fljson(t: &mut Toks) -> String {
+    let inp = t.b();
+    let outlen = t.n() as usize;
+    let fill = t.n() as u8;
+    let mut buf = guarded(outlen, fill);
+    let r = Filter::from_json(&inp, &mut buf[GUARD..GUARD + outlen]);
+    let (consumed, fl) = match r {
+        Ok((c, _o, f)) => (c, f.as_bytes().to_vec()),
+        Err(e) => return format!("fljson r=err:{} guard={}", crate::err_class(&e), guards_ok(&buf, outlen)),
+    };
+    let f: &Filter = unsafe { Filter::delineate(&fl).unwrap() };
+    let acc = match std::panic::catch_unwind(std::panic::AssertUnwindSafe(|| fl_accessors(f))) {
+        Ok(s) => s,
+        Err(_) => "panic".to_string(),
+    };
+    let js = match std::panic::catch_unwind(std::panic::AssertUnwindSafe(|| f.as_json())) {
+        Ok(r) => r,
+        Err(_) => return format!("fljson r=ok consumed={} fl={} acc={} json=panic guard={}", consumed, hex(&fl), acc, guards_ok(&buf, outlen)),
+    };
+    let re = match &js {
+        Ok(j) => {
+            let mut b2 = vec![0xAAu8; fl.len()];
+            match Filter::from_json(j, &mut b2) {
+                Ok((_, _, f2)) => format!("{}", f2.as_bytes() == &fl[..]),
+                Err(e) => format!("err:{}", crate::err_class(&e)),
+            }
+        }
+        Err(_) => "nojson".to_string(),
+    };
+    format!(
+        "fljson r=ok consumed={} fl={} tail={} acc={} json={} reparse={} guard={}",
+        consumed,
+        hex(&fl),
+        fnv(&buf[GUARD + fl.len()..GUARD + outlen]),
+        acc,
+        s_resjson(js),
+        re,
+        guards_ok(&buf, outlen)
+    )
+}
+
+pub fn cmd_tagsjson(t: &mut Toks) -> String {
+    let inp = t.b();
+    let outlen = t.n() as usize;
+    let fill = t.n() as u8;
+    let mut buf = guarded(outlen, fill);
+    let r = Tags::from_json(&inp, &mut buf[GUARD..GUARD + outlen]);
+    let (consumed, tg) = match r {
+        Ok((c, tg)) => (c, tg.as_bytes().to_vec()),
+        Err(e) => return format!("tagsjson r=err:{} guard={}", crate::err_class(&e), guards_ok(&buf, outlen)),
+    };
+    let tags: &Tags = unsafe { Tags::delineate(&tg).unwrap() };
+    let acc = match std::panic::catch_unwind(std::panic::AssertUnwindSafe(|| s_tags(&tags_to_parts(tags)))) {
+        Ok(s) => format!("ok {s}"),
+        Err(_) => "panic".to_string(),
+    };
+    let js = match std::panic::catch_unwind(std::panic::AssertUnwindSafe(|| tags.as_json())) {
+        Ok(v) => format!("ok {}", hex(&v)),
+        Err(_) => "panic".to_string(),
+    };
+    format!("tagsjson r=ok consumed={} tags={} acc={} json={} guard={}", consumed, hex(&tg), acc, js, guards_ok(&buf, outlen))
+}
+
+pub fn cmd_unescape(t: &mut Toks) -> String {
+    let inp = t.b();
+    let cap = t.n() as usize;
+    let mut buf = guarded(cap, 0x5A);
+    match pocket_types::json::json_unescape(&inp, &mut buf[GUARD..GUARD + cap]) {
+        Ok((inlen, outlen)) => format!(
+            "unescape r=ok inlen={} out={} guard={}",
+            inlen,
+            hex(&buf[GUARD..GUARD + outlen]),
+            guards_ok(&buf, cap)
+        ),
+        Err(e) => format!("unescape r=err:{} guard={}", crate::err_class(&e), guards_ok(&buf, cap)),
+    }
+}
+
+pub fn cmd_escape(t: &mut Toks) -> String {
+    let inp = t.b();
+    format!("escape r={}", s_resjson(pocket_types::json::json_escape(&inp, Vec::new())))
+}
+
+pub fn cmd_addr(t: &mut Toks) -> String {
+    let inp = t.b();
+    match pocket_types::Addr::try_from_bytes(&inp) {
+        Ok(a) => format!("addr r=ok n:{} {} {}", a.kind.as_u16(), s_bytes(a.author.as_slice()), s_bytes(&a.d)),
+        Err(e) => format!("addr r=err:{}", crate::err_class(&e)),
+    }
+}
+
+pub fn cmd_kindclass(t: &mut Toks) -> String {
+    let k = Kind::from_u16(t.n() as u16);
+    format!("kindclass {} {} {}", k.is_replaceable(), k.is_ephemeral(), k.is_parameterized_replaceable())
+}
+
+// ---------------- sign / verify (C08) ----------------
+pub fn cmd_sign(t: &mut Toks) -> String {
+    use pocket_types::secp256k1::{Keypair, SECP256K1};
+    let kind = t.n() as u16;
+    let created = t.n() as u64;
+    let tags = t.tags();
+    let content = t.b();
+    let sk = t.b();
+    let kp = match Keypair::from_seckey_slice(SECP256K1, &sk) {
+        Ok(k) => k,
+        Err(_) => return "sign r=badkey".to_string(),
+    };
+    let otags = match build_tags(&tags) {
+        Ok(x) => x,
+        Err(s) => return format!("sign r=tags-{s}"),
+    };
+    let ev = match OwnedEvent::sign_new(&kp, Kind::from_u16(kind), &otags, Time::from_u64(created), &content) {
+        Ok(e) => e,
+        Err(e) => return format!("sign r=err:{}", crate::err_class(&e)),
+    };
+    let v0 = ev.verify().is_ok();
+    let id = ev.id().as_slice().to_vec();
+    let pk = ev.pubkey().as_slice().to_vec();
+    let sig = ev.sig().as_slice().to_vec();
+    // accessors of the signed event reproduce the parts
+    let acc_ok = ev.kind().as_u16() == kind
+        && ev.created_at().as_u64() == created
+        && ev.content() == &content[..]
+        && tags_to_parts(ev.tags().unwrap()) == tags;
+    // single-field mutations: every one must make verification fail
+    let mut muts: Vec<(String, EvParts)> = Vec::new();
+    let base = || EvParts { id: id.clone(), pk: pk.clone(), sig: sig.clone(), kind: kind as u128, created: created as u128, tags: tags.clone(), content: content.clone() };
+    for (name, pos, bit) in [("id", 0usize, 0u8), ("id", 15, 3), ("id", 31, 7)] {
+        let mut p = base();
+        p.id[pos] ^= 1 << bit;
+        muts.push((format!("{name}[{pos}].{bit}"), p));
+    }
+    for (pos, bit) in [(0usize, 0u8), (16, 5), (31, 7)] {
+        let mut p = base();
+        p.pk[pos] ^= 1 << bit;
+        muts.push((format!("pk[{pos}].{bit}"), p));
+    }
+    for (pos, bit) in [(0usize, 0u8), (31, 7), (32, 0), (63, 7)] {
+        let mut p = base();
+        p.sig[pos] ^= 1 << bit;
+        muts.push((format!("sig[{pos}].{bit}"), p));
+    }
+    {
+        let mut p = base();
+        p.created = created.wrapping_add(1) as u128;
+        muts.push(("created+1".into(), p));
+        let mut p = base();
+        p.created = created.wrapping_sub(1) as u128;
+        muts.push(("created-1".into(), p));
+        let mut p = base();
+        p.kind = kind.wrapping_add(1) as u128;
+        muts.push(("kind+1".into(), p));
+        let mut p = base();
+        p.kind = kind.wrapping_sub(1) as u128;
+        muts.push(("kind-1".into(), p));
+        let mut p = base();
+        p.content.push(b' ');
+        muts.push(("content+space".into(), p));
+        if !content.is_empty() {
+            let mut p = base();
+            p.content.pop();
+            // keep valid UTF-8
+            if std::str::from_utf8(&p.content).is_ok() {
+                muts.push(("content-last".into(), p));
+            }
+            let mut p = base();
+            p.content[0] = if p.content[0] == b'a' { b'b' } else { b'a' };
+            if std::str::from_utf8(&p.content).is_ok() {
+                muts.push(("content[0]".into(), p));
+            }
+        }
+        // "\n" as one character vs the two characters backslash + n
+        let mut p = base();
+        p.content = String::from_utf8_lossy(&content).replace('\n', "\\n").into_bytes();
+        if p.content != content {
+            muts.push(("content-nl-spelled".into(), p));
+        }
+        let mut p = base();
+        p.content = String::from_utf8_lossy(&content).replace('"', "\\\"").into_bytes();
+        if p.content != content {
+            muts.push(("content-quote-spelled".into(), p));
+        }
+    }
+    // tag strings and structure
+    for (ti, tg) in tags.iter().enumerate() {
+        for (si, _s) in tg.iter().enumerate() {
+            let mut p = base();
+            p.tags[ti][si].push(b'x');
+            muts.push((format!("tag[{ti}][{si}]+x"), p));
+        }
+        let mut p = base();
+        p.tags[ti].push(Vec::new());
+        muts.push((format!("tag[{ti}]+empty-string"), p));
+        if tg.len() >= 2 {
+            // split the tag in two
+            let mut p = base();
+            let rest = p.tags[ti].split_off(1);
+            p.tags.insert(ti + 1, rest);
+            muts.push((format!("tag[{ti}]-split"), p));
+            // merge the first two strings
+            let mut p = base();
+            let b = p.tags[ti].remove(1);
+            p.tags[ti][0].extend(b);
+            muts.push((format!("tag[{ti}]-merge-strings"), p));
+        }
+        if ti + 1 < tags.len() {
+            let mut p = base();
+            let nxt = p.tags.remove(ti + 1);
+            p.tags[ti].extend(nxt);
+            muts.push((format!("tag[{ti}]-merge-next"), p));
+            let mut p = base();
+            p.tags.swap(ti, ti + 1);
+            if p.tags != tags {
+                muts.push((format!("tag[{ti}]-swap-next"), p));
+            }
+        }
+    }
+    {
+        let mut p = base();
+        p.tags.push(Vec::new());
+        muts.push(("tags+empty-tag".into(), p));
+        let mut p = base();
+        p.tags.insert(0, vec![b"x".to_vec()]);
+        muts.push(("tags+front".into(), p));
+    }
+    let mut bad: Vec<String> = Vec::new();
+    let n = muts.len();
+    for (name, p) in muts {
+        match build_event(&p) {
+            Ok(e2) => {
+                if e2.verify().is_ok() {
+                    bad.push(name);
+                }
+            }
+            Err(_) => {}
+        }
+    }
+    format!(
+        "sign r=ok id={} pk={} verify={} acc={} nmut={} accepted_mutations={}",
+        hex(&id),
+        hex(&pk),
+        v0,
+        acc_ok,
+        n,
+        if bad.is_empty() { "-".to_string() } else { bad.join(",") }
+    )
+}
+
+/// parse a JSON event and verify it
+pub fn cmd_verifyjson(t: &mut Toks) -> String {
+    let inp = t.b();
+    let mut buf = vec![0u8; inp.len() + 1024];
+    match Event::from_json(&inp, &mut buf) {
+        Ok((_, e)) => format!("verifyjson r=ok verify={} id={} pk={}", e.verify().is_ok(), hex(e.id().as_slice()), hex(e.pubkey().as_slice())),
+        Err(e) => format!("verifyjson r=err:{}", crate::err_class(&e)),
+    }
+}
